@@ -51,6 +51,17 @@ def make_service(P):
         def echo(self, token):
             return token
 
+        def fail_key(self, token):
+            raise KeyError(token)          # an ordinary failure of a well-behaved client's own call: the "correct reply" is this very exception
+
+        def raise_builtin_unser(self):
+            e = KeyError(threading.Lock())     # the same builtin classes the well-behaved clients see, with content no serializer can take
+            e.handle = object()
+            raise e
+
+        def raise_value_unser(self):
+            raise ValueError(object())
+
         def raise_unser(self):
             e = Unser("x")
             e.lock = threading.Lock()
@@ -185,7 +196,7 @@ def hostile_items(P, r, ser, base_kind):
               ["Pyro.Daemon", "get_metadata", ["nosuch"], {}], ["Pyro.Daemon", "get_next_stream_item", ["nosuch"], {}], ["Pyro.Daemon", "close_stream", [5], {}],
               ["svc", "echo", [{"__class__": "a__b"}], {}], ["svc", "echo", [{"__class__": "os.system"}], {}], ["svc", "echo", [deep(150)], {}],
               ["svc", "raise_unser", [], {}], ["svc", "raise_badstr", [], {}], ["svc", "raise_badrepr", [], {}], ["svc", "raise_local", [], {}], ["svc", "raise_huge", [], {}],
-              ["svc", "raise_nested", [], {}], ["svc", "raise_recursion", [], {}], ["svc", "return_unser", [], {}], ["svc", "return_generator_bad", [], {}],
+              ["svc", "raise_nested", [], {}], ["svc", "raise_recursion", [], {}], ["svc", "return_unser", [], {}], ["svc", "return_generator_bad", [], {}], ["svc", "raise_builtin_unser", [], {}], ["svc", "raise_value_unser", [], {}],
               ["svc", "stream_list", [], {}], ["svc", "stream_map", [], {}], ["svc", "stream_gen", [], {}], ["svc", "stream_custom", [], {}],
               ["svc", "echo", ["x"] * 3, {}], ["svc", "echo", [], {"token": 1, "other": 2}], ["svc", "<batch>", [["echo", ["t"], {}], ["nosuch", [], {}]], {}],
               ["svc", "__getattr__", ["nosuch"], {}], ["svc", "__setattr__", ["echo"], {}], ["svc", "__getattr__", [], {}]]
@@ -244,8 +255,20 @@ class Witness(threading.Thread):
                 n += 1
                 tok = "w%d-%d" % (self.wid, n)
                 t_send = time.monotonic()
+                want_exc = n % 5 == 0
                 try:
-                    got = p.echo(tok)
+                    if want_exc:
+                        try:
+                            p.fail_key(tok)
+                            got = "<returned normally>"
+                        except KeyError as kx:
+                            got = tok if kx.args == (tok,) and type(kx) is KeyError else "KeyError%r" % (kx.args,)
+                        except P.errors.CommunicationError:
+                            raise
+                        except Exception as ox:
+                            got = "%s: %s" % (type(ox).__name__, str(ox)[:120])
+                    else:
+                        got = p.echo(tok)
                 except P.errors.CommunicationError as x:
                     ct = P.config.COMMTIMEOUT
                     if ct and (t_send - last_reply) > 0.25 * ct:
@@ -270,7 +293,7 @@ class Witness(threading.Thread):
                     raise
                 last_reply = time.monotonic()
                 if got != tok:
-                    self.problems.append("witness %d sent %r, got %r" % (self.wid, tok, got))
+                    self.problems.append("witness %d %s %r, got %r" % (self.wid, "expected its call to raise KeyError" if want_exc else "sent", tok, got))
                     break
                 if p._pyroConnection is not conn:
                     self.problems.append("witness %d: connection was replaced" % self.wid)
@@ -349,7 +372,11 @@ def run_config(P, cfg, rec, r, n_items):
                     work.append((ser, phase, label, data, r.choice(["fin", "rst", "read-then-fin"]), r.choice([0, 0, 0, 0.005, 0.03])))
         r.shuffle(work)
         if n_items:
-            work = work[:n_items]
+            # (a sample in the quick tier; the method-raises-unserialisable items are always part of it)
+            keep = [w for w in work if "raise_" in w[2] or "stream_" in w[2]]
+            rest = [w for w in work if not ("raise_" in w[2] or "stream_" in w[2])]
+            work = keep + rest[:max(0, n_items - len(keep))]
+            r.shuffle(work)
         lock = threading.Lock()
         idx = [0]
         sent_log = []
